@@ -49,7 +49,7 @@ def run(tier, rep):
         wf = i % 3 == 0
         data, items = gen_streams.mixed_stream(rnd, pool, rnd.randint(4, 14), well_formed=wf, dmg=0.25)
         fm = rnd.choice(["none", "eof", "short", "mixed", "mixed"])
-        kind = "scripted" if fm != "none" else rnd.choice(["scripted", "bytesio", "buffered"])
+        kind = "scripted" if fm != "none" else rnd.choice(["scripted", "bytesio", "buffered", "pipe"])
         tr.add(data, kind=kind, validate=rnd.choice(von), parsed=True, quit=rnd.choice([0, 1, 2]), faults=gen_streams.faults(rnd, 80, fm), rnd=rnd,
                use_iter=bool(i % 2), nframes=sum(1 for it in items if it[0] == "frame"), nother=sum(1 for it in items if it[0] != "frame"))
     data, frames = stream_corpus.crc_target_stream(bundle, rnd, pool)
